@@ -34,6 +34,8 @@ def _shape(b, o, key, name, maker):
     """'opaque' (default): the function must not read it; 'any': None or a value; 'none'; 'some'."""
     mode = o.get(key, "opaque")
     if mode == "opaque":
+        if key == "parser" and getattr(b, "native", False):
+            return b.new("GcodeParser")      # native replay: the real code below the summaries needs a real parser
         return b.opaque(name)
     if mode == "none":
         return None
